@@ -226,6 +226,10 @@ func (v *objectTreeValidator) validateChange(tree *Tree, aclList list.AclList, c
 }
 
 func ValidateRawTreeDefault(payload treestorage.TreeStorageCreatePayload, storageCreator TreeStorageCreator, aclList list.AclList) (objTree ObjectTree, err error) {
+	if payload.RootRawChange == nil {
+		// e.g. a full sync response that carries no root change
+		return nil, ErrEmptyChange
+	}
 	ctx := context.Background()
 	treeStorage, err := storageCreator.CreateStorageWithDeferredCreation(ctx, treestorage.TreeStorageCreatePayload{
 		RootRawChange: payload.RootRawChange,
@@ -258,6 +262,9 @@ func ValidateRawTreeDefault(payload treestorage.TreeStorageCreatePayload, storag
 }
 
 func ValidateFilterRawTree(payload treestorage.TreeStorageCreatePayload, storageCreator TreeStorageCreator, aclList list.AclList) (objTree ObjectTree, err error) {
+	if payload.RootRawChange == nil {
+		return nil, ErrEmptyChange
+	}
 	aclList.RLock()
 	if !aclList.AclState().HadReadPermissions(aclList.AclState().Identity()) {
 		aclList.RUnlock()
